@@ -479,17 +479,35 @@ def render_signature(
     return "\n".join(rendered_multi_lines)
 
 
+def _strip_module_prefixes(s: str, modules: Iterable[str]) -> str:
+    # Yes, this is a horrible hack, but inspect.py gives us no way to
+    # specify the function that should be used to format annotations.
+    # Longest first: with both pkg and pkg.utils imported, pkg.utils.B must
+    # lose "pkg.utils." rather than just "pkg.".
+    for module in sorted(modules, key=len, reverse=True):
+        # Only strip the prefix of a whole dotted name: not the tail of a
+        # longer module path (utils. in my.utils.B) or of a longer
+        # identifier (foo. in barfoo.Baz).
+        s = re.sub(r"(?<![\w.])" + re.escape(module) + r"\.", "", s)
+    return s
+
+
 class AttributeStub(Stub):
     def __init__(
         self,
         name: str,
         typ: type,
+        strip_modules: Optional[Iterable[str]] = None,
     ) -> None:
         self.name = name
         self.typ = typ
+        self.strip_modules = strip_modules or []
 
     def render(self, prefix: str = "") -> str:
-        return f"{prefix}{self.name}: {render_annotation(self.typ)}"
+        annotation = _strip_module_prefixes(
+            render_annotation(self.typ), self.strip_modules
+        )
+        return f"{prefix}{self.name}: {annotation}"
 
     def __repr__(self) -> str:
         return f"AttributeStub({self.name}, {self.typ})"
@@ -516,15 +534,7 @@ class FunctionStub(Stub):
             s += "async "
         s += "def " + self.name
         s += render_signature(self.signature, 120 - len(s), prefix) + ": ..."
-        # Yes, this is a horrible hack, but inspect.py gives us no way to
-        # specify the function that should be used to format annotations.
-        # Longest first: with both pkg and pkg.utils imported, pkg.utils.B must
-        # lose "pkg.utils." rather than just "pkg.".
-        for module in sorted(self.strip_modules, key=len, reverse=True):
-            # Only strip the prefix of a whole dotted name: not the tail of a
-            # longer module path (utils. in my.utils.B) or of a longer
-            # identifier (foo. in barfoo.Baz).
-            s = re.sub(r"(?<![\w.])" + re.escape(module) + r"\.", "", s)
+        s = _strip_module_prefixes(s, self.strip_modules)
         if self.kind == FunctionKind.CLASS:
             s = prefix + "@classmethod\n" + s
         elif self.kind == FunctionKind.STATIC:
@@ -858,6 +868,12 @@ def build_module_stubs(entries: Iterable[FunctionDefinition]) -> Dict[str, Modul
         # Import TypedDict, if needed.
         if entry.typed_dict_class_stubs:
             imports["mypy_extensions"].add("TypedDict")
+        # The fields of generated TypedDict classes are annotations too.
+        for typed_dict_class_stub in entry.typed_dict_class_stubs:
+            for attribute_stub in typed_dict_class_stub.attribute_stubs:
+                attribute_imports = get_imports_for_annotation(attribute_stub.typ)
+                attribute_stub.strip_modules = list(attribute_imports.keys())
+                imports.merge(attribute_imports)
         func_stub = FunctionStub(
             name, entry.signature, entry.kind, list(imports.keys()), entry.is_async
         )
